@@ -1090,12 +1090,14 @@ func (w *world) sentMsg(c *conn, msgs ...[]byte) {
 
 // readEcho reads the echo of one text message.
 func (w *world) readEcho(c *conn, msg []byte) bool {
-	_ = c.cli.SetReadDeadline(time.Now().Add(w.caps.Step))
+	cp := w.capFor("other", w.caps.Step)
+	_ = c.cli.SetReadDeadline(time.Now().Add(cp))
 	op, fin, pl, err := readFrame(c.br)
 	switch {
 	case err != nil && isTimeout(err):
+		w.expired("other")
 		w.capHit("echo of a WebSocket message")
-		w.obs("other", "ws-echo-missing"+qual(c), "c%d: no echo of %q within %v", c.id, msg, w.caps.Step)
+		w.obs("other", "ws-echo-missing"+qual(c), "c%d: no echo of %q within %v", c.id, msg, cp)
 		w.dead = true
 		return false
 	case err != nil:
@@ -1177,10 +1179,11 @@ func (w *world) doWS(c *conn, kind string) {
 		if !w.write(c, clientFrame(9, []byte("pi"))) {
 			return
 		}
-		_ = c.cli.SetReadDeadline(time.Now().Add(w.caps.Step))
+		_ = c.cli.SetReadDeadline(time.Now().Add(w.capFor("other", w.caps.Step)))
 		op, _, pl, err := readFrame(c.br)
 		switch {
 		case err != nil && isTimeout(err):
+			w.expired("other")
 			w.capHit("pong")
 			w.dead = true
 		case err != nil:
@@ -1217,9 +1220,10 @@ func (w *world) doWS(c *conn, kind string) {
 		if !w.write(c, clientFrame(8, []byte{0x03, 0xe8})) {
 			return
 		}
-		_ = c.cli.SetReadDeadline(time.Now().Add(w.caps.Step))
+		_ = c.cli.SetReadDeadline(time.Now().Add(w.capFor("other", w.caps.Step)))
 		op, _, _, err := readFrame(c.br)
 		if err != nil && isTimeout(err) {
+			w.expired("other")
 			w.capHit("reply to a WebSocket close frame")
 			w.dead = true
 			return
